@@ -318,6 +318,8 @@ impl Scenario for C04 {
         let mut v = vec![Act::RemoveTrusted(0), Act::SetTrusted(0), Act::SetTrusted(1), Act::RemoveTrusted(1)];
         if m.advances < 1 {
             v.push(Act::Advance(20));
+            // ~64 days: longer than any TTL a contract extends to, shorter than the minimum persistent TTL
+            v.push(Act::Advance(1_100_000));
         }
         for k in KINDS {
             for d in self.devs() {
@@ -332,13 +334,23 @@ impl Scenario for C04 {
         // every pair of deviations of different classes (thorough), from the states that only
         // trust changes and time have touched
         if self.thorough && m.executed.is_empty() && !m.d1_deployed {
-            let devs = self.devs();
+            // a reduced alphabet for the pairs: one representative per numeric family
+            let devs: Vec<Dev> = self
+                .devs()
+                .into_iter()
+                .filter(|d| match d {
+                    Dev::OuterType(t) => *t == 0 || *t == 5,
+                    Dev::InnerType(t) => *t == 2 || *t == 255,
+                    Dev::Amount(i) => *i == 0 || *i == 2,
+                    Dev::TruncateAtWord(k) => *k == 3 || *k == 8,
+                    Dev::Trailing(t) | Dev::InnerTrailing(t) => *t == 1,
+                    Dev::GarbageAddress(g) => *g == 1,
+                    _ => true,
+                })
+                .collect();
             for k in [Kind::TransferNative, Kind::TransferCanonical, Kind::DeployWithMinter] {
                 for (i, d1) in devs.iter().enumerate() {
                     for d2 in devs.iter().skip(i + 1) {
-                        if matches!(d1, Dev::TruncateAtWord(x) if *x > 3 && *x % 4 != 0) || matches!(d2, Dev::TruncateAtWord(x) if *x > 3 && *x % 4 != 0) {
-                            continue;
-                        }
                         if self.build_n(ctx, k, &[*d1, *d2]).is_some() {
                             v.push(Act::Deliver2(k, *d1, *d2));
                         }
